@@ -1,7 +1,1417 @@
-//go:build wip_c02
-
 package props
 
-import "siotcheck/kit"
+import (
+	"fmt"
+	"go/ast"
+	"go/constant"
+	"go/token"
+	"go/types"
+	"sort"
+	"strconv"
+	"strings"
 
-func c02Tables(m *c02Model, r2 *kit.Rule) {}
+	"golang.org/x/tools/go/cfg"
+
+	"siotcheck/kit"
+)
+
+// R2: the comparison region of the comparing function (everything after the
+// "hashes differ" edge) is executed abstractly under concrete small
+// scenarios.  A scenario fixes, for node points, edge points and children,
+// how many entries each copy has (0..2), which local entry matches which
+// remote one and, per matched pair, the order of the two timestamps (resp.
+// whether the two hashes differ), and whether the node is the device root.
+// Range loops over the six lists iterate over the scenario's entries; the
+// identity / time / id / hash comparisons are answered from the scenario;
+// boolean locals, integer indices and bool-valued maps/slices indexed by a
+// loop index are tracked exactly.  Everything else is nondeterministic.
+
+type c02GS struct { // scenario of one group
+	nL, nR int
+	rel    map[[2]int]string // (local idx, remote idx) -> relation
+}
+
+type c02Scn struct {
+	g    map[string]*c02GS // "np","ep","ch"
+	root bool
+}
+
+var c02Groups = []struct {
+	name, title string
+	rels        []string
+}{
+	{"np", "node points", []string{"gt", "lt", "eq"}},
+	{"ep", "edge points", []string{"gt", "lt", "eq"}},
+	{"ch", "child nodes", []string{"ne", "eq"}},
+}
+
+func c02EnumGroup(rels []string) []*c02GS {
+	var out []*c02GS
+	for nL := 0; nL <= 2; nL++ {
+		for nR := 0; nR <= 2; nR++ {
+			var rec func(i int, used map[int]bool, cur map[[2]int]string)
+			rec = func(i int, used map[int]bool, cur map[[2]int]string) {
+				if i == nL {
+					cp := map[[2]int]string{}
+					for k, v := range cur {
+						cp[k] = v
+					}
+					out = append(out, &c02GS{nL, nR, cp})
+					return
+				}
+				rec(i+1, used, cur) // unmatched
+				for j := 0; j < nR; j++ {
+					if used[j] {
+						continue
+					}
+					used[j] = true
+					for _, r := range rels {
+						cur[[2]int{i, j}] = r
+						rec(i+1, used, cur)
+					}
+					delete(cur, [2]int{i, j})
+					used[j] = false
+				}
+			}
+			rec(0, map[int]bool{}, map[[2]int]string{})
+		}
+	}
+	return out
+}
+
+func c02Reps(rels []string) []*c02GS {
+	return []*c02GS{
+		{0, 0, map[[2]int]string{}},
+		{2, 2, map[[2]int]string{{0, 0}: rels[0], {1, 1}: rels[1]}},
+		{2, 2, map[[2]int]string{}},
+	}
+}
+
+func (sc *c02Scn) describe() string {
+	var parts []string
+	names := map[string][2]string{"np": {"p", "q"}, "ep": {"e", "f"}, "ch": {"c", "d"}}
+	for _, g := range c02Groups {
+		gs := sc.g[g.name]
+		if gs.nL == 0 && gs.nR == 0 {
+			continue
+		}
+		nm := names[g.name]
+		lst := func(pre string, n int) string {
+			var xs []string
+			for i := 0; i < n; i++ {
+				xs = append(xs, pre+strconv.Itoa(i))
+			}
+			return "[" + strings.Join(xs, ",") + "]"
+		}
+		d := fmt.Sprintf("%s LOCAL %s REMOTE %s", g.title, lst(nm[0], gs.nL), lst(nm[1], gs.nR))
+		var keys [][2]int
+		for k := range gs.rel {
+			keys = append(keys, k)
+		}
+		sort.Slice(keys, func(i, j int) bool { return keys[i][0] < keys[j][0] })
+		for _, k := range keys {
+			d += fmt.Sprintf(", %s%d~%s%d %s", nm[0], k[0], nm[1], k[1], map[string]string{
+				"gt": "local newer", "lt": "remote newer", "eq": "same " + map[bool]string{true: "hash", false: "time"}[g.name == "ch"], "ne": "hashes differ"}[gs.rel[k]])
+		}
+		parts = append(parts, d)
+	}
+	if len(parts) == 0 {
+		parts = append(parts, "all lists empty")
+	}
+	return strings.Join(parts, "; ") + "; device root: " + map[bool]string{true: "yes", false: "no"}[sc.root]
+}
+
+// c02Req is one outcome the scenario requires.
+type c02Req struct {
+	row  string // table row (obligation key)
+	want string // human text
+	// match
+	kind  string // "S","T","R"
+	side  string // S,T: receiving side "L"/"R"
+	grp   string
+	elems []string // acceptable payload / id elements
+}
+
+func c02ElemName(grp, side string, i int) string { return grp + ":" + side + ":" + strconv.Itoa(i) }
+
+func (sc *c02Scn) required() []c02Req {
+	var out []c02Req
+	for _, g := range c02Groups {
+		gs := sc.g[g.name]
+		if g.name == "ep" && sc.root {
+			continue // the device root's own edge is not synchronised
+		}
+		matchedL, matchedR := map[int]bool{}, map[int]bool{}
+		for k, r := range gs.rel {
+			matchedL[k[0]], matchedR[k[1]] = true, true
+			a, b := c02ElemName(g.name, "L", k[0]), c02ElemName(g.name, "R", k[1])
+			switch r {
+			case "gt":
+				out = append(out, c02Req{row: g.title + ": local copy newer", want: "send the local point to REMOTE", kind: "S", side: "R", grp: g.name, elems: []string{a}})
+			case "lt":
+				out = append(out, c02Req{row: g.title + ": remote copy newer", want: "send the remote point to LOCAL", kind: "S", side: "L", grp: g.name, elems: []string{b}})
+			case "ne":
+				out = append(out, c02Req{row: g.title + ": hashes differ", want: "compare the child recursively", kind: "R", grp: g.name, elems: []string{a, b}})
+			}
+		}
+		for i := 0; i < gs.nL; i++ {
+			if matchedL[i] {
+				continue
+			}
+			a := c02ElemName(g.name, "L", i)
+			if g.name == "ch" {
+				out = append(out, c02Req{row: g.title + ": only on LOCAL", want: "hand the local child to the transfer towards REMOTE", kind: "T", side: "R", grp: g.name, elems: []string{a}})
+			} else {
+				out = append(out, c02Req{row: g.title + ": only on LOCAL", want: "send the local point to REMOTE", kind: "S", side: "R", grp: g.name, elems: []string{a}})
+			}
+		}
+		for j := 0; j < gs.nR; j++ {
+			if matchedR[j] {
+				continue
+			}
+			b := c02ElemName(g.name, "R", j)
+			if g.name == "ch" {
+				out = append(out, c02Req{row: g.title + ": only on REMOTE", want: "hand the remote child to the transfer towards LOCAL", kind: "T", side: "L", grp: g.name, elems: []string{b}})
+			} else {
+				out = append(out, c02Req{row: g.title + ": only on REMOTE", want: "send the remote point to LOCAL", kind: "S", side: "L", grp: g.name, elems: []string{b}})
+			}
+		}
+	}
+	return out
+}
+
+// ---------------------------------------------------------------------------
+
+type c02Interp struct {
+	m    *c02Model
+	f    *kit.Func
+	info *types.Info
+	st   *kit.Std
+	sc   *c02Scn
+
+	timeF, typeF, keyF *types.Var
+	matchM             map[*types.Func][]*types.Var // identity method -> field compared with parameter i
+	rangeX             map[ast.Expr]*ast.RangeStmt
+	childList          map[types.Object]string // listing result -> "L"/"R"
+	alias              map[types.Object][2]string
+	containers         map[types.Object]bool
+	tracked            map[types.Object]bool // loop variables of tracked ranges, the copies, aliases
+	pIdx, idIdx        int                   // positions of (parent, id) among F's parameters
+	idChanged          bool                  // the id the copies were fetched with is reassigned somewhere
+
+	// per run
+	unknown        []string
+	unknownRelated bool
+}
+
+func c02SideAbbr(s string) string {
+	switch s {
+	case c02Local:
+		return "L"
+	case c02Remote:
+		return "R"
+	}
+	return "?"
+}
+
+func c02SideLong(s string) string {
+	switch s {
+	case "L":
+		return c02Local
+	case "R":
+		return c02Remote
+	}
+	return "an untyped connection"
+}
+
+func (it *c02Interp) listOf(e ast.Expr) (grp, side string, ok bool) {
+	e = ast.Unparen(e)
+	switch x := e.(type) {
+	case *ast.SelectorExpr:
+		base := kit.ObjOf(it.info, x.X)
+		switch {
+		case base == nil:
+			return
+		case base == it.m.L:
+			side = "L"
+		case base == it.m.U:
+			side = "R"
+		default:
+			return
+		}
+		switch kit.ObjOf(it.info, x) {
+		case types.Object(it.m.pointsF):
+			return "np", side, true
+		case types.Object(it.m.edgePointsF):
+			return "ep", side, true
+		}
+	case *ast.Ident:
+		o := kit.ObjOf(it.info, x)
+		if sd, ok := it.childList[o]; ok {
+			return "ch", sd, true
+		}
+		if a, ok := it.alias[o]; ok {
+			return a[0], a[1], true
+		}
+	}
+	return "", "", false
+}
+
+func (it *c02Interp) size(grp, side string) int {
+	gs := it.sc.g[grp]
+	if side == "L" {
+		return gs.nL
+	}
+	return gs.nR
+}
+
+func (it *c02Interp) intOf(e ast.Expr, s kit.S) (int, bool) {
+	e = ast.Unparen(e)
+	if call, ok := e.(*ast.CallExpr); ok && len(call.Args) == 1 {
+		if b, ok := kit.Callee(it.info, call).(*types.Builtin); ok && b.Name() == "len" {
+			if g, sd, ok := it.listOf(call.Args[0]); ok {
+				return it.size(g, sd), true
+			}
+			return 0, false
+		}
+	}
+	if be, ok := e.(*ast.BinaryExpr); ok && (be.Op == token.ADD || be.Op == token.SUB) {
+		a, ok1 := it.intOf(be.X, s)
+		b, ok2 := it.intOf(be.Y, s)
+		if ok1 && ok2 {
+			if be.Op == token.ADD {
+				return a + b, true
+			}
+			return a - b, true
+		}
+		return 0, false
+	}
+	if v, ok := it.st.FoldExpr(e, s); ok && v.Kind() == constant.Int {
+		if i, exact := constant.Int64Val(v); exact {
+			return int(i), true
+		}
+	}
+	return 0, false
+}
+
+func (it *c02Interp) mentionsLen(e ast.Expr) bool {
+	found := false
+	ast.Inspect(e, func(n ast.Node) bool {
+		if call, ok := n.(*ast.CallExpr); ok && len(call.Args) == 1 {
+			if b, ok := kit.Callee(it.info, call).(*types.Builtin); ok && b.Name() == "len" {
+				if _, _, ok := it.listOf(call.Args[0]); ok {
+					found = true
+				}
+			}
+		}
+		return true
+	})
+	return found
+}
+
+// elemOf resolves an expression to a scenario entry ("np:L:0"; suffix "!"
+// when the variable was modified after binding).
+func (it *c02Interp) elemOf(e ast.Expr, s kit.S) string {
+	e = ast.Unparen(e)
+	switch x := e.(type) {
+	case *ast.Ident:
+		if o := kit.ObjOf(it.info, x); o != nil {
+			return s.Get("b:" + kit.VarID(o))
+		}
+	case *ast.IndexExpr:
+		if g, sd, ok := it.listOf(x.X); ok {
+			if i, ok := it.intOf(x.Index, s); ok && i >= 0 && i < it.size(g, sd) {
+				return c02ElemName(g, sd, i)
+			}
+		}
+	}
+	return ""
+}
+
+func (it *c02Interp) elemField(e ast.Expr, fld *types.Var, s kit.S) string {
+	sel, ok := ast.Unparen(e).(*ast.SelectorExpr)
+	if !ok || kit.ObjOf(it.info, sel) != types.Object(fld) {
+		return ""
+	}
+	return it.elemOf(sel.X, s)
+}
+
+func c02Split(el string) (grp, side string, idx int, ok bool) {
+	p := strings.Split(el, ":")
+	if len(p) != 3 || strings.HasSuffix(el, "!") {
+		return
+	}
+	i, err := strconv.Atoi(p[2])
+	if err != nil {
+		return
+	}
+	return p[0], p[1], i, true
+}
+
+// relOf returns the relation of a matched pair seen from the local entry.
+func (it *c02Interp) relOf(a, b string) (rel string, aLocal, matched, comparable bool) {
+	ga, sa, ia, ok1 := c02Split(a)
+	gb, sb, ib, ok2 := c02Split(b)
+	if !ok1 || !ok2 || ga != gb || sa == sb {
+		return "", false, false, false
+	}
+	if sa == "R" {
+		ia, ib = ib, ia
+	}
+	r, ok := it.sc.g[ga].rel[[2]int{ia, ib}]
+	return r, sa == "L", ok, true
+}
+
+func (it *c02Interp) noteUnknown(e ast.Expr, related bool) {
+	it.unknown = append(it.unknown, it.f.Str(e))
+	if related {
+		it.unknownRelated = true
+	}
+}
+
+func (it *c02Interp) mentionsTracked(e ast.Node, s kit.S) bool {
+	found := false
+	ast.Inspect(e, func(n ast.Node) bool {
+		if id, ok := n.(*ast.Ident); ok {
+			if o := kit.ObjOf(it.info, id); o != nil {
+				if it.tracked[o] || it.containers[o] || s.Has("b:"+kit.VarID(o)) {
+					found = true
+				}
+				if isErrorType(o.Type()) {
+					found = true
+				}
+			}
+		}
+		return true
+	})
+	return found
+}
+
+// fold answers a condition leaf from the scenario.
+func (it *c02Interp) fold(e ast.Expr, s kit.S) (bool, bool) {
+	e = ast.Unparen(e)
+	switch x := e.(type) {
+	case *ast.CallExpr:
+		sel, isSel := ast.Unparen(x.Fun).(*ast.SelectorExpr)
+		if !isSel {
+			return false, false
+		}
+		callee := kit.Callee(it.info, x)
+		switch q := kit.QualName(callee); q {
+		case "time.(Time).After", "time.(Time).Before", "time.(Time).Equal":
+			if len(x.Args) != 1 {
+				return false, false
+			}
+			a, b := it.elemField(sel.X, it.timeF, s), it.elemField(x.Args[0], it.timeF, s)
+			if a == "" && b == "" {
+				return false, false
+			}
+			rel, aLocal, matched, cmp := it.relOf(a, b)
+			if !cmp || !matched {
+				return false, false // order of unrelated entries is not part of the scenario
+			}
+			if !aLocal {
+				rel = map[string]string{"gt": "lt", "lt": "gt", "eq": "eq"}[rel]
+			}
+			switch q {
+			case "time.(Time).After":
+				return rel == "gt", true
+			case "time.(Time).Before":
+				return rel == "lt", true
+			default:
+				return rel == "eq", true
+			}
+		}
+		if fn, ok := callee.(*types.Func); ok {
+			if flds, ok := it.matchM[fn]; ok && len(x.Args) == len(flds) {
+				a := it.elemOf(sel.X, s)
+				b := ""
+				for i, arg := range x.Args {
+					bi := it.elemField(arg, flds[i], s)
+					if bi == "" || (b != "" && bi != b) {
+						return false, false
+					}
+					b = bi
+				}
+				if _, _, matched, cmp := it.relOf(a, b); cmp {
+					return matched, true
+				}
+			}
+		}
+	case *ast.BinaryExpr:
+		switch x.Op {
+		case token.EQL, token.NEQ:
+			val, ok := it.foldEq(x, s)
+			if ok {
+				return val == (x.Op == token.EQL), true
+			}
+		}
+		switch x.Op {
+		case token.EQL, token.NEQ, token.LSS, token.LEQ, token.GTR, token.GEQ:
+			if it.mentionsLen(x) {
+				a, ok1 := it.intOf(x.X, s)
+				b, ok2 := it.intOf(x.Y, s)
+				if ok1 && ok2 {
+					return constant.Compare(constant.MakeInt64(int64(a)), x.Op, constant.MakeInt64(int64(b))), true
+				}
+			}
+		}
+	case *ast.IndexExpr:
+		if o := kit.ObjOf(it.info, x.X); o != nil && it.containers[o] {
+			if v, ok := it.cell(o, x.Index, s); ok {
+				return v == "true", v == "true" || v == "false"
+			}
+		}
+	}
+	return false, false
+}
+
+// foldEq evaluates `a == b` leaves the scenario knows: ids and hashes of
+// children, the device-root test.
+func (it *c02Interp) foldEq(x *ast.BinaryExpr, s kit.S) (equal, ok bool) {
+	m := it.m
+	// child ids
+	if a, b := it.elemField(x.X, m.idF, s), it.elemField(x.Y, m.idF, s); a != "" && b != "" {
+		if _, _, matched, cmp := it.relOf(a, b); cmp {
+			return matched, true
+		}
+		return false, false
+	}
+	if a, b := it.elemField(x.X, m.hashF, s), it.elemField(x.Y, m.hashF, s); a != "" && b != "" {
+		if rel, _, matched, cmp := it.relOf(a, b); cmp && matched {
+			return rel == "eq", true
+		}
+		return false, false
+	}
+	// device root: <copy>.ID against the cached LOCAL root's ID
+	isCopyID := func(e ast.Expr) bool {
+		return m.nodeField(e, m.L, m.idF) || m.nodeField(e, m.U, m.idF)
+	}
+	isRootID := func(e ast.Expr) bool {
+		sel, ok := ast.Unparen(e).(*ast.SelectorExpr)
+		if !ok || kit.ObjOf(it.info, sel) != types.Object(m.idF) {
+			return false
+		}
+		in, ok := ast.Unparen(sel.X).(*ast.SelectorExpr)
+		if !ok {
+			return false
+		}
+		fv, _ := kit.ObjOf(it.info, in).(*types.Var)
+		return fv != nil && m.rootSide[fv] == c02Local
+	}
+	if (isCopyID(x.X) && isRootID(x.Y)) || (isRootID(x.X) && isCopyID(x.Y)) {
+		return it.sc.root, true
+	}
+	return false, false
+}
+
+func (it *c02Interp) cell(o types.Object, idx ast.Expr, s kit.S) (string, bool) {
+	id := kit.VarID(o)
+	if s.Get("cd:"+id) != "" {
+		return "", false
+	}
+	i, ok := it.intOf(idx, s)
+	if !ok {
+		return "", false
+	}
+	k := "c:" + id + ":" + strconv.Itoa(i)
+	if !s.Has(k) {
+		return "false", true
+	}
+	return s.Get(k), true
+}
+
+func (it *c02Interp) isFreshContainer(e ast.Expr) bool {
+	e = ast.Unparen(e)
+	switch x := e.(type) {
+	case *ast.CompositeLit:
+		return len(x.Elts) == 0
+	case *ast.CallExpr:
+		if b, ok := kit.Callee(it.info, x).(*types.Builtin); ok && b.Name() == "make" {
+			return true
+		}
+	}
+	return false
+}
+
+func (it *c02Interp) onNode(n ast.Node, s kit.S) []kit.S {
+	if e, ok := n.(ast.Expr); ok {
+		if rs, ok := it.rangeX[e]; ok {
+			s = s.Del("it:" + strconv.Itoa(int(rs.Pos())))
+		}
+		return []kit.S{s}
+	}
+	as, ok := n.(*ast.AssignStmt)
+	if !ok {
+		return []kit.S{s}
+	}
+	info := it.info
+	// v, ok := container[i]
+	if len(as.Lhs) == 2 && len(as.Rhs) == 1 {
+		if ix, ok := ast.Unparen(as.Rhs[0]).(*ast.IndexExpr); ok {
+			if o := kit.ObjOf(info, ix.X); o != nil && it.containers[o] {
+				i, okI := it.intOf(ix.Index, s)
+				if okI && s.Get("cd:"+kit.VarID(o)) == "" {
+					k := "c:" + kit.VarID(o) + ":" + strconv.Itoa(i)
+					if vo := kit.ObjOf(info, as.Lhs[1]); vo != nil {
+						s = s.Set("v:"+kit.VarID(vo), strconv.FormatBool(s.Has(k)))
+					}
+					if vo := kit.ObjOf(info, as.Lhs[0]); vo != nil {
+						val := "false"
+						if s.Has(k) {
+							val = s.Get(k)
+						}
+						if val == "true" || val == "false" {
+							s = s.Set("v:"+kit.VarID(vo), val)
+						}
+					}
+				}
+				return []kit.S{s}
+			}
+		}
+	}
+	if len(as.Lhs) != len(as.Rhs) {
+		for _, l := range as.Lhs {
+			if id, ok := ast.Unparen(l).(*ast.Ident); ok {
+				if o := kit.ObjOf(info, id); o != nil {
+					s = s.Del("b:" + kit.VarID(o))
+					if o == it.m.L || o == it.m.U {
+						s = s.Set("poison", "a compared copy is reassigned: "+it.f.Str(as))
+					}
+				}
+			}
+		}
+		return []kit.S{s}
+	}
+	for i, l := range as.Lhs {
+		l = ast.Unparen(l)
+		rhs := as.Rhs[i]
+		switch x := l.(type) {
+		case *ast.IndexExpr:
+			o := kit.ObjOf(info, x.X)
+			if o == nil || !it.containers[o] {
+				continue
+			}
+			id := kit.VarID(o)
+			idx, okI := it.intOf(x.Index, s)
+			if !okI || as.Tok != token.ASSIGN {
+				s = s.Set("cd:"+id, "1")
+				continue
+			}
+			val := "?"
+			if v, ok := it.st.FoldExpr(rhs, s); ok && v.Kind() == constant.Bool {
+				val = strconv.FormatBool(constant.BoolVal(v))
+			}
+			s = s.Set("c:"+id+":"+strconv.Itoa(idx), val)
+		case *ast.Ident:
+			o := kit.ObjOf(info, x)
+			if o == nil {
+				continue
+			}
+			id := kit.VarID(o)
+			if it.containers[o] {
+				s = s.DelPrefix("c:" + id + ":").Del("cd:" + id)
+				if !it.isFreshContainer(rhs) {
+					s = s.Set("cd:"+id, "1")
+				}
+				continue
+			}
+			if o == it.m.L || o == it.m.U {
+				s = s.Set("poison", "a compared copy is reassigned: "+it.f.Str(as))
+				continue
+			}
+			if c02IsConn(o.Type()) {
+				// local alias of a typed connection
+				if sd := it.connSideOf(rhs, s); sd != "?" {
+					s = s.Set("cs:"+id, sd)
+				} else {
+					s = s.Del("cs:" + id)
+				}
+				continue
+			}
+			if el := it.payload(rhs, s); el != "" && (as.Tok == token.ASSIGN || as.Tok == token.DEFINE) {
+				s = s.Set("b:"+id, el)
+			} else {
+				s = s.Del("b:" + id)
+			}
+		case *ast.SelectorExpr:
+			base := kit.ObjOf(info, x.X)
+			if base == nil {
+				continue
+			}
+			if _, isIdent := ast.Unparen(x.X).(*ast.Ident); !isIdent {
+				continue
+			}
+			if b := s.Get("b:" + kit.VarID(base)); b != "" && !strings.HasSuffix(b, "!") {
+				s = s.Set("b:"+kit.VarID(base), b+"!")
+			}
+			if base == it.m.L || base == it.m.U {
+				switch kit.ObjOf(info, x) {
+				case types.Object(it.m.pointsF), types.Object(it.m.edgePointsF), types.Object(it.m.idF), types.Object(it.m.parentF):
+					s = s.Set("poison", "a compared copy is modified: "+it.f.Str(as))
+				}
+			}
+		}
+	}
+	return []kit.S{s}
+}
+
+// gc drops facts about variables declared inside the loop body.
+func (it *c02Interp) gc(s kit.S, rs *ast.RangeStmt) kit.S {
+	lo, hi := int(rs.Body.Pos()), int(rs.Body.End())
+	for _, k := range s.Keys() {
+		if !(strings.HasPrefix(k, "nn:") || strings.HasPrefix(k, "ev:") || strings.HasPrefix(k, "v:") || strings.HasPrefix(k, "b:")) {
+			continue
+		}
+		at := strings.LastIndexByte(k, '@')
+		if at < 0 {
+			continue
+		}
+		p, err := strconv.Atoi(k[at+1:])
+		if err == nil && p >= lo && p <= hi {
+			s = s.Del(k)
+		}
+	}
+	return s
+}
+
+func (it *c02Interp) onBranch(br kit.Branch, s kit.S) (t, fl []kit.S, handled bool) {
+	if br.Kind != kit.BrRange {
+		return nil, nil, false
+	}
+	rs := br.Range
+	s = it.gc(s, rs)
+	grp, side, ok := it.listOf(rs.X)
+	if !ok {
+		return []kit.S{s}, []kit.S{s}, true
+	}
+	key := "it:" + strconv.Itoa(int(rs.Pos()))
+	cur, _ := strconv.Atoi(s.Get(key))
+	if cur >= it.size(grp, side) {
+		return nil, []kit.S{s.Del(key)}, true
+	}
+	s2 := s.Set(key, strconv.Itoa(cur+1))
+	if rs.Key != nil {
+		if o := kit.ObjOf(it.info, rs.Key); o != nil {
+			s2 = s2.Set("v:"+kit.VarID(o), strconv.Itoa(cur))
+		}
+	}
+	if rs.Value != nil {
+		if o := kit.ObjOf(it.info, rs.Value); o != nil {
+			s2 = s2.Set("b:"+kit.VarID(o), c02ElemName(grp, side, cur))
+		}
+	}
+	return []kit.S{s2}, nil, true
+}
+
+// role names what an id / parent argument denotes.
+func (it *c02Interp) role(e ast.Expr, s kit.S) string {
+	m := it.m
+	e = ast.Unparen(e)
+	if sel, ok := e.(*ast.SelectorExpr); ok {
+		fld := kit.ObjOf(it.info, sel)
+		fname := ""
+		switch fld {
+		case types.Object(m.idF):
+			fname = "ID"
+		case types.Object(m.parentF):
+			fname = "Parent"
+		default:
+			return "?" + it.f.Str(e)
+		}
+		base := kit.ObjOf(it.info, sel.X)
+		switch {
+		case base != nil && base == m.L:
+			return "L." + fname
+		case base != nil && base == m.U:
+			return "U." + fname
+		}
+		if el := it.elemOf(sel.X, s); el != "" {
+			return "E." + fname + ":" + el
+		}
+		return "?" + it.f.Str(e)
+	}
+	if id, ok := e.(*ast.Ident); ok {
+		if o := kit.ObjOf(it.info, id); o != nil && o == m.pID && !it.idChanged {
+			// the id both copies were fetched with; usable only while unchanged
+			return "P.ID"
+		}
+	}
+	return "?" + it.f.Str(e)
+}
+
+// connSideOf types a connection argument: a typed field or a local alias of one.
+func (it *c02Interp) connSideOf(e ast.Expr, s kit.S) string {
+	if sd := c02SideAbbr(it.m.connSide(e)); sd != "?" {
+		return sd
+	}
+	if id, ok := ast.Unparen(e).(*ast.Ident); ok {
+		if o := kit.ObjOf(it.info, id); o != nil && s.Get("cs:"+kit.VarID(o)) != "" {
+			return s.Get("cs:" + kit.VarID(o))
+		}
+	}
+	return "?"
+}
+
+func c02AddOut(s kit.S, rec string) kit.S {
+	cur := s.Get("out")
+	var items []string
+	if cur != "" {
+		items = strings.Split(cur, "\n")
+	}
+	items = append(items, rec)
+	sort.Strings(items)
+	return s.Set("out", strings.Join(items, "\n"))
+}
+
+func (it *c02Interp) payload(e ast.Expr, s kit.S) string {
+	e = ast.Unparen(e)
+	if lit, ok := e.(*ast.CompositeLit); ok && len(lit.Elts) == 1 && c02IsPoints(it.info.TypeOf(lit)) {
+		return it.elemOf(lit.Elts[0], s)
+	}
+	return it.elemOf(e, s)
+}
+
+// payloadRelated: does an unresolvable payload derive from the compared data?
+func (it *c02Interp) payloadRelated(e ast.Expr, s kit.S) bool {
+	if it.mentionsTracked(e, s) {
+		return true
+	}
+	id, ok := ast.Unparen(e).(*ast.Ident)
+	if !ok {
+		return false
+	}
+	o := kit.ObjOf(it.info, id)
+	rel := false
+	ast.Inspect(it.f.Body, func(n ast.Node) bool {
+		as, ok := n.(*ast.AssignStmt)
+		if !ok {
+			return true
+		}
+		for i, l := range as.Lhs {
+			if kit.ObjOf(it.info, l) != o {
+				continue
+			}
+			var rhs ast.Expr
+			if len(as.Rhs) == len(as.Lhs) {
+				rhs = as.Rhs[i]
+			} else if len(as.Rhs) == 1 {
+				rhs = as.Rhs[0]
+			}
+			if rhs != nil && it.mentionsTracked(rhs, kit.NewS()) {
+				rel = true
+			}
+		}
+		return true
+	})
+	return rel
+}
+
+func (it *c02Interp) onCall(call *ast.CallExpr, n ast.Node, s kit.S) []kit.S {
+	m := it.m
+	if sg := m.sendSig(it.info, call); sg != nil {
+		pay := it.payload(call.Args[sg.pay], s)
+		if pay == "" {
+			if !it.payloadRelated(call.Args[sg.pay], s) {
+				return nil
+			}
+			pay = "?" + it.f.Str(call.Args[sg.pay])
+		}
+		side := it.connSideOf(call.Args[0], s)
+		pr := "-"
+		if sg.parent >= 0 {
+			pr = it.role(call.Args[sg.parent], s)
+		}
+		rec := strings.Join([]string{"S", side, sg.kind(), pay, it.role(call.Args[sg.id], s), pr, it.f.At(call)}, "|")
+		return []kit.S{c02AddOut(s, rec)}
+	}
+	if t := m.transferOf(it.f, call); t != nil && len(call.Args) >= 1 {
+		pay := it.elemOf(call.Args[0], s)
+		if pay == "" {
+			pay = "?" + it.f.Str(call.Args[0])
+		}
+		rec := strings.Join([]string{"T", c02SideAbbr(t.dest), "ch", pay, "-", "-", it.f.At(call)}, "|")
+		return []kit.S{c02AddOut(s, rec)}
+	}
+	if it.f.CalleeFunc(call) == it.f && it.pIdx >= 0 && it.idIdx >= 0 && len(call.Args) > it.pIdx && len(call.Args) > it.idIdx {
+		idr := it.role(call.Args[it.idIdx], s)
+		pay := "?" + it.f.Str(call.Args[it.idIdx])
+		if strings.HasPrefix(idr, "E.ID:") {
+			pay = strings.TrimPrefix(idr, "E.ID:")
+		}
+		rec := strings.Join([]string{"R", "-", "ch", pay, idr, it.role(call.Args[it.pIdx], s), it.f.At(call)}, "|")
+		return []kit.S{c02AddOut(s, rec)}
+	}
+	if b, ok := kit.Callee(it.info, call).(*types.Builtin); ok && b.Name() == "delete" && len(call.Args) == 2 {
+		if o := kit.ObjOf(it.info, call.Args[0]); o != nil && it.containers[o] {
+			if i, ok := it.intOf(call.Args[1], s); ok {
+				return []kit.S{s.Del("c:" + kit.VarID(o) + ":" + strconv.Itoa(i))}
+			}
+			return []kit.S{s.Set("cd:"+kit.VarID(o), "1")}
+		}
+	}
+	return nil
+}
+
+// ---------------------------------------------------------------------------
+
+type c02Row struct {
+	title     string
+	weight    int // size of the witness scenario
+	violation string
+	path      []string
+	undecided string
+	okRuns    int
+}
+
+func c02Tables(m *c02Model, r2 *kit.Rule) {
+	c := m.c
+	f := m.F
+	info := m.info
+	it := &c02Interp{m: m, f: f, info: info, matchM: map[*types.Func][]*types.Var{}, rangeX: map[ast.Expr]*ast.RangeStmt{},
+		childList: map[types.Object]string{}, alias: map[types.Object][2]string{}, containers: map[types.Object]bool{}, tracked: map[types.Object]bool{}, pIdx: -1, idIdx: -1}
+
+	// data.Point fields and identity methods
+	dpk := c.P.MustPkg("data")
+	ptn, _ := dpk.Types.Scope().Lookup("Point").(*types.TypeName)
+	if ptn == nil {
+		c.Fatalf("type data.Point not found")
+	}
+	it.timeF, it.typeF, it.keyF = c02StructField(ptn.Type(), "Time"), c02StructField(ptn.Type(), "Type"), c02StructField(ptn.Type(), "Key")
+	if it.timeF == nil || it.typeF == nil || it.keyF == nil || !kit.IsNamedType(it.timeF.Type(), "time", "Time") {
+		c.Fatalf("data.Point no longer has Time (time.Time), Type and Key")
+	}
+	for _, g := range c.P.Funcs("data") {
+		if g.Decl == nil || g.Decl.Recv == nil || g.Obj == nil || len(g.Decl.Recv.List) != 1 || len(g.Decl.Recv.List[0].Names) != 1 {
+			continue
+		}
+		sig := g.Obj.Type().(*types.Signature)
+		if sig.Recv() == nil || !c02IsPoint(sig.Recv().Type()) || sig.Params().Len() != 2 || sig.Results().Len() != 1 {
+			continue
+		}
+		if b, ok := sig.Results().At(0).Type().Underlying().(*types.Basic); !ok || b.Kind() != types.Bool {
+			continue
+		}
+		recv := g.Info().Defs[g.Decl.Recv.List[0].Names[0]]
+		ps := g.Params()
+		if len(ps) != 2 || !c02IsString(ps[0].Type()) || !c02IsString(ps[1].Type()) {
+			continue
+		}
+		flds := make([]*types.Var, 2)
+		ast.Inspect(g.Body, func(n ast.Node) bool {
+			be, ok := n.(*ast.BinaryExpr)
+			if !ok || (be.Op != token.EQL && be.Op != token.NEQ) {
+				return true
+			}
+			for _, pair := range [][2]ast.Expr{{be.X, be.Y}, {be.Y, be.X}} {
+				po := kit.ObjOf(g.Info(), pair[0])
+				sel, ok := ast.Unparen(pair[1]).(*ast.SelectorExpr)
+				if !ok || kit.ObjOf(g.Info(), sel.X) != recv {
+					continue
+				}
+				fv, _ := kit.ObjOf(g.Info(), sel).(*types.Var)
+				for i, p := range ps {
+					if po == types.Object(p) && fv != nil {
+						flds[i] = fv
+					}
+				}
+			}
+			return true
+		})
+		if flds[0] != nil && flds[1] != nil && flds[0] != flds[1] &&
+			(flds[0] == it.typeF || flds[0] == it.keyF) && (flds[1] == it.typeF || flds[1] == it.keyF) {
+			it.matchM[g.Obj] = flds
+		}
+	}
+
+	// child listings, aliases, containers, ranges
+	for _, l := range m.childListings() {
+		if l.res != nil && l.side != "" {
+			it.childList[l.res] = c02SideAbbr(l.side)
+			it.tracked[l.res] = true
+		}
+	}
+	it.tracked[m.L], it.tracked[m.U] = true, true
+	assignCount := map[types.Object]int{}
+	aliasCand := map[types.Object][2]string{}
+	ast.Inspect(f.Body, func(n ast.Node) bool {
+		switch x := n.(type) {
+		case *ast.AssignStmt:
+			for i, l := range x.Lhs {
+				id, ok := ast.Unparen(l).(*ast.Ident)
+				if !ok {
+					continue
+				}
+				o := kit.ObjOf(info, id)
+				if o == nil {
+					continue
+				}
+				assignCount[o]++
+				if len(x.Lhs) == len(x.Rhs) {
+					if g, sd, ok := it.listOf(x.Rhs[i]); ok && g != "ch" {
+						aliasCand[o] = [2]string{g, sd}
+					}
+				}
+				if v, ok := o.(*types.Var); ok && !v.IsField() && v.Parent() != nil && v.Parent() != v.Pkg().Scope() {
+					switch t := v.Type().Underlying().(type) {
+					case *types.Map:
+						if b, ok := t.Elem().Underlying().(*types.Basic); ok && b.Kind() == types.Bool {
+							it.containers[o] = true
+						}
+					case *types.Slice:
+						if b, ok := t.Elem().Underlying().(*types.Basic); ok && b.Kind() == types.Bool {
+							it.containers[o] = true
+						}
+					}
+				}
+			}
+		}
+		return true
+	})
+	it.idChanged = m.pID != nil && assignCount[m.pID] > 0
+	for o, a := range aliasCand {
+		if assignCount[o] == 1 {
+			it.alias[o] = a
+			it.tracked[o] = true
+		}
+	}
+	// containers that escape (passed to a call, address taken) are not modelled
+	ast.Inspect(f.Body, func(n ast.Node) bool {
+		switch x := n.(type) {
+		case *ast.CallExpr:
+			if b, ok := kit.Callee(info, x).(*types.Builtin); ok && (b.Name() == "delete" || b.Name() == "len") {
+				return true
+			}
+			for _, a := range x.Args {
+				if o := kit.ObjOf(info, a); o != nil {
+					delete(it.containers, o)
+				}
+			}
+		case *ast.UnaryExpr:
+			if x.Op == token.AND {
+				if o := kit.ObjOf(info, x.X); o != nil {
+					delete(it.containers, o)
+				}
+			}
+		case *ast.RangeStmt:
+			if o := kit.ObjOf(info, x.X); o != nil {
+				delete(it.containers, o)
+			}
+		}
+		return true
+	})
+	firstRange := map[string]ast.Node{}
+	ast.Inspect(f.Body, func(n ast.Node) bool {
+		if rs, ok := n.(*ast.RangeStmt); ok {
+			it.rangeX[rs.X] = rs
+			if g, _, ok := it.listOf(rs.X); ok {
+				for _, kv := range []ast.Expr{rs.Key, rs.Value} {
+					if kv != nil {
+						if o := kit.ObjOf(info, kv); o != nil {
+							it.tracked[o] = true
+						}
+					}
+				}
+				hasOutcome := false
+				ast.Inspect(rs.Body, func(y ast.Node) bool {
+					if call, ok := y.(*ast.CallExpr); ok {
+						if m.sendSig(info, call) != nil || m.transferOf(f, call) != nil || f.CalleeFunc(call) == f {
+							hasOutcome = true
+						}
+					}
+					return true
+				})
+				if _, seen := firstRange[g]; !seen && hasOutcome {
+					firstRange[g] = rs
+				}
+			}
+		}
+		return true
+	})
+	for i, p := range f.Params() {
+		if types.Object(p) == m.pParent {
+			it.pIdx = i
+		}
+		if types.Object(p) == m.pID {
+			it.idIdx = i
+		}
+	}
+
+	// region start: the "hashes differ" edge
+	g := c.P.Graph(f)
+	var start *cfg.Block
+	nstart := 0
+	for _, b := range g.G.Blocks {
+		if !b.Live || len(b.Succs) != 2 {
+			continue
+		}
+		br := g.BranchOf(b)
+		if br.Kind != kit.BrCond && !(br.Kind == kit.BrCase && br.Tag == nil) {
+			continue
+		}
+		cond := ast.Unparen(br.Cond)
+		neg := false
+		for {
+			u, ok := cond.(*ast.UnaryExpr)
+			if !ok || u.Op != token.NOT {
+				break
+			}
+			neg = !neg
+			cond = ast.Unparen(u.X)
+		}
+		be, ok := cond.(*ast.BinaryExpr)
+		if !ok || (be.Op != token.EQL && be.Op != token.NEQ) {
+			continue
+		}
+		isLU := (m.nodeField(be.X, m.L, m.hashF) && m.nodeField(be.Y, m.U, m.hashF)) || (m.nodeField(be.X, m.U, m.hashF) && m.nodeField(be.Y, m.L, m.hashF))
+		if !isLU {
+			continue
+		}
+		nstart++
+		differsOnTrue := (be.Op == token.NEQ) != neg
+		if differsOnTrue {
+			start = b.Succs[0]
+		} else {
+			start = b.Succs[1]
+		}
+	}
+	if nstart != 1 || start == nil {
+		c.Fatalf("R2: the comparison of the two copies' hashes is not a branch condition of its own in %s (%d found)", f.Name, nstart)
+	}
+
+	st := &kit.Std{F: f}
+	it.st = st
+	st.Fold = it.fold
+	st.OnNode = it.onNode
+	st.OnBranch = it.onBranch
+	st.OnCall = it.onCall
+	st.ErrTag = func(call *ast.CallExpr, s kit.S) string { return "e" }
+	st.OnErrEdge = func(tag string, isErr bool, s kit.S) (kit.S, bool) {
+		if isErr {
+			return s.Set("ab", "1"), true
+		}
+		return s, true
+	}
+	st.Eval.OnUnknown = func(e ast.Expr) {
+		it.noteUnknown(e, it.mentionsTracked(e, kit.NewS()) || it.mentionsLen(e))
+	}
+	client := st.Client()
+
+	rows := map[string]*c02Row{}
+	var rowOrder []string
+	row := func(title string) *c02Row {
+		if r, ok := rows[title]; ok {
+			return r
+		}
+		r := &c02Row{title: title}
+		rows[title] = r
+		rowOrder = append(rowOrder, title)
+		return r
+	}
+	for _, gr := range c02Groups {
+		if gr.name == "ch" {
+			row(gr.title + ": hashes differ")
+		} else {
+			row(gr.title + ": local copy newer")
+			row(gr.title + ": remote copy newer")
+		}
+		row(gr.title + ": only on LOCAL")
+		row(gr.title + ": only on REMOTE")
+		if gr.name != "ch" {
+			row(gr.title + ": send targets")
+		}
+	}
+	groupRows := func(grp string) []*c02Row {
+		var out []*c02Row
+		for _, gr := range c02Groups {
+			if gr.name == grp {
+				for _, t := range rowOrder {
+					if strings.HasPrefix(t, gr.title+":") {
+						out = append(out, rows[t])
+					}
+				}
+			}
+		}
+		return out
+	}
+	allUndecided := func(msg string) {
+		for _, t := range rowOrder {
+			if rows[t].undecided == "" {
+				rows[t].undecided = msg
+			}
+		}
+	}
+
+	runs := 0
+	runOne := func(sc *c02Scn) {
+		runs++
+		it.sc = sc
+		it.unknown, it.unknownRelated = nil, false
+		res := g.RunFrom(start, 0, kit.NewS(), client)
+		if res.Overflow {
+			c.Fatalf("R2: state overflow in %s under scenario %s", f.Name, sc.describe())
+		}
+		reqs := sc.required()
+		type verdict struct {
+			missing []c02Req
+			exit    kit.Exit
+			out     string
+		}
+		var verdicts []verdict
+		judged := 0
+		tainted := false
+		for _, e := range res.Exits {
+			if p := e.State.Get("poison"); p != "" {
+				allUndecided(p)
+				return
+			}
+			if e.State.Get("ab") == "1" {
+				continue
+			}
+			judged++
+			out := e.State.Get("out")
+			var recs [][]string
+			if out != "" {
+				for _, l := range strings.Split(out, "\n") {
+					recs = append(recs, strings.Split(l, "|"))
+				}
+			}
+			// unresolved payloads / targets
+			for _, r := range recs {
+				kind, side, skind, pay, idr, pr, at := r[0], r[1], r[2], r[3], r[4], r[5], r[6]
+				pg, _, _, okPay := c02Split(pay)
+				if !okPay {
+					// a modified copy or a value built from the compared data:
+					// the run cannot be judged for that kind of entry
+					msg := fmt.Sprintf("the payload of the call at %s (`%s`) derives from the compared data but is not one unmodified entry of a compared list", at, strings.TrimSuffix(strings.TrimPrefix(pay, "?"), "!"))
+					tg, _, _, okT := c02Split(strings.TrimSuffix(pay, "!"))
+					for _, gr := range c02Groups {
+						if okT && gr.name != tg {
+							continue
+						}
+						for _, rw := range groupRows(gr.name) {
+							if rw.undecided == "" {
+								rw.undecided = msg
+							}
+						}
+					}
+					tainted = true
+					continue
+				}
+				switch kind {
+				case "S":
+					tr := row(map[string]string{"np": "node points", "ep": "edge points"}[pg] + ": send targets")
+					if pg == "ch" {
+						continue
+					}
+					if side == "?" {
+						if tr.undecided == "" {
+							tr.undecided = "connection of the send at " + at + " is not a typed field"
+						}
+						for _, rw := range groupRows(pg) {
+							if rw.undecided == "" {
+								rw.undecided = "connection of the send at " + at + " is not a typed field"
+							}
+						}
+						tainted = true
+						continue
+					}
+					bad := ""
+					switch {
+					case skind != pg:
+						bad = fmt.Sprintf("%s is sent with the %s send at %s", map[string]string{"np": "a node point", "ep": "an edge point"}[pg], map[string]string{"np": "node-point", "ep": "edge-point"}[skind], at)
+					case idr == "L.Parent" || idr == "U.Parent" || strings.HasPrefix(idr, "E."):
+						bad = fmt.Sprintf("the send at %s addresses node `%s` instead of the compared node's id", at, idr)
+					case skind == "ep" && (pr == "L.ID" || pr == "U.ID" || pr == "P.ID" || strings.HasPrefix(pr, "E.")):
+						bad = fmt.Sprintf("the send at %s passes `%s` as parent instead of the compared node's parent", at, pr)
+					}
+					if bad != "" {
+						if tr.violation == "" {
+							tr.violation = bad + " (scenario: " + sc.describe() + "): the point is written to a node/edge that is not the compared one"
+							tr.path = res.PathTo(e)
+						}
+						continue
+					}
+					if strings.HasPrefix(idr, "?") || (skind == "ep" && strings.HasPrefix(pr, "?")) {
+						if tr.undecided == "" {
+							tr.undecided = fmt.Sprintf("target of the send at %s (`%s`, `%s`) is not a field of one of the compared copies", at, strings.TrimPrefix(idr, "?"), strings.TrimPrefix(pr, "?"))
+						}
+						continue
+					}
+					tr.okRuns++
+				case "R":
+					rw := row("child nodes: hashes differ")
+					switch {
+					case pr == "L.ID" || pr == "U.ID" || pr == "P.ID":
+					case strings.HasPrefix(pr, "?"):
+						if rw.undecided == "" {
+							rw.undecided = fmt.Sprintf("parent argument of the recursive call at %s (`%s`) is not the compared node's id", at, strings.TrimPrefix(pr, "?"))
+						}
+					default:
+						if rw.violation == "" {
+							rw.violation = fmt.Sprintf("the recursive call at %s passes `%s` as the parent of the child instead of the compared node's id (scenario: %s)", at, pr, sc.describe())
+							rw.path = res.PathTo(e)
+						}
+					}
+				}
+			}
+			var missing []c02Req
+			for _, rq := range reqs {
+				found := false
+				for _, r := range recs {
+					if r[0] != rq.kind {
+						continue
+					}
+					if rq.kind != "R" && r[1] != rq.side {
+						continue
+					}
+					if rq.kind == "S" && r[2] != rq.grp {
+						continue
+					}
+					for _, el := range rq.elems {
+						if r[3] == el {
+							found = true
+						}
+					}
+				}
+				if !found {
+					missing = append(missing, rq)
+				}
+			}
+			verdicts = append(verdicts, verdict{missing, e, out})
+		}
+		if judged == 0 {
+			allUndecided("no exit is reached without a failed call under scenario " + sc.describe())
+			return
+		}
+		if tainted {
+			return
+		}
+		// a requirement is violated when no judged path fulfils it; when only
+		// some paths do, the outcome hangs on a condition the checker cannot
+		// evaluate and the row stays undecided (never guessed)
+		missCount := map[string]int{} // requirement key -> number of exits missing it
+		reqKey := func(rq c02Req) string {
+			return rq.row + "|" + rq.kind + "|" + rq.side + "|" + strings.Join(rq.elems, ",")
+		}
+		for _, v := range verdicts {
+			for _, rq := range v.missing {
+				missCount[reqKey(rq)]++
+			}
+		}
+		badRows := map[string]bool{}
+		for _, rq := range reqs {
+			if missCount[reqKey(rq)] > 0 {
+				badRows[rq.row] = true
+			}
+		}
+		for _, rq := range reqs {
+			if !badRows[rq.row] {
+				rows[rq.row].okRuns++
+			}
+		}
+		weight := 0
+		for _, gs := range sc.g {
+			weight += gs.nL + gs.nR
+		}
+		for _, rq := range reqs {
+			n := missCount[reqKey(rq)]
+			if n == 0 {
+				continue
+			}
+			rw := rows[rq.row]
+			if n < len(verdicts) {
+				if rw.undecided == "" {
+					rw.undecided = fmt.Sprintf("under scenario {%s} the requirement «%s (%s)» is met on some paths only; it depends on `%s`, which the checker cannot evaluate", sc.describe(), rq.want, c02Pretty(rq.elems[0]), strings.Join(uniqStrings(it.unknown), "`, `"))
+				}
+				continue
+			}
+			if rw.violation != "" && rw.weight <= weight {
+				continue
+			}
+			v := verdicts[0]
+			var did []string
+			if v.out != "" {
+				for _, l := range strings.Split(v.out, "\n") {
+					r := strings.Split(l, "|")
+					switch r[0] {
+					case "S":
+						did = append(did, fmt.Sprintf("%s send of %s to %s", map[string]string{"np": "node-point", "ep": "edge-point"}[r[2]], c02Pretty(r[3]), c02SideLong(r[1])))
+					case "T":
+						did = append(did, fmt.Sprintf("transfer of %s towards %s", c02Pretty(r[3]), c02SideLong(r[1])))
+					case "R":
+						did = append(did, fmt.Sprintf("recursive comparison of %s", c02Pretty(r[3])))
+					}
+				}
+			}
+			if len(did) == 0 {
+				did = []string{"nothing"}
+			}
+			rw.violation = fmt.Sprintf("scenario {%s}: required: %s (%s); executed on every path without a failed call: %s — the %s never receives the newest state of that entry", sc.describe(), rq.want, c02Pretty(rq.elems[0]), strings.Join(did, "; "),
+				map[string]string{"R": "REMOTE instance", "L": "LOCAL instance", "": "subtree below the child"}[rq.side])
+			rw.path = res.PathTo(v.exit)
+			rw.weight = weight
+		}
+	}
+
+	reps := map[string][]*c02GS{}
+	for _, gr := range c02Groups {
+		reps[gr.name] = c02Reps(gr.rels)
+	}
+	for _, gr := range c02Groups {
+		for _, gs := range c02EnumGroup(gr.rels) {
+			for rep := 0; rep < 3; rep++ {
+				for _, root := range []bool{false, true} {
+					sc := &c02Scn{g: map[string]*c02GS{}, root: root}
+					for _, other := range c02Groups {
+						if other.name == gr.name {
+							sc.g[other.name] = gs
+						} else {
+							sc.g[other.name] = reps[other.name][rep]
+						}
+					}
+					runOne(sc)
+				}
+			}
+		}
+	}
+	c.AddValuations(runs)
+
+	for _, t := range rowOrder {
+		rw := rows[t]
+		var site ast.Node
+		for _, gr := range c02Groups {
+			if strings.HasPrefix(t, gr.title+":") {
+				site = firstRange[gr.name]
+			}
+		}
+		obl := "in every scenario with at most two entries per list the required send / transfer / recursion is executed on every path without a failed call"
+		if strings.HasSuffix(t, "send targets") {
+			obl = "every send of a compared point addresses the compared node (id, and parent for edge points) with the send of the point's kind"
+		}
+		o := r2.Ob(f, site, t, obl)
+		switch {
+		case rw.violation != "":
+			o.Violation("%s", rw.violation).WithPath(rw.path)
+		case rw.undecided != "":
+			o.Undecided("%s", rw.undecided)
+		case rw.okRuns == 0:
+			o.Undecided("no scenario exercised this row")
+		default:
+			o.OK("held in %d scenario runs", rw.okRuns)
+		}
+	}
+}
+
+func c02Pretty(el string) string {
+	g, sd, i, ok := c02Split(el)
+	if !ok {
+		return "`" + strings.TrimPrefix(el, "?") + "`"
+	}
+	names := map[string][2]string{"np": {"p", "q"}, "ep": {"e", "f"}, "ch": {"c", "d"}}
+	n := names[g][0]
+	if sd == "R" {
+		n = names[g][1]
+	}
+	return n + strconv.Itoa(i)
+}
